@@ -5,7 +5,7 @@ import MpsVerif.Drv.Util
 
 Protocol (one line each):
 ```
-case <id> bs=<n> wait=<n> end=<N|k> strict=<0|1>
+case <id> bs=<n> wait=<n|D> [ups=<units per second>] end=<N|k> strict=<0|1>     (wait=D: constructor default)
 e arrive <N|k> | e tick <d> | e take <N|k> | e emit <x,x,…> | e resume | e stop
 end pc=<idle|coll|flush|held|closing|done> out=<#batches> clock=<n> q=<#queued>
 ```
@@ -64,7 +64,9 @@ def parseEv (name : String) (arg : Option String) : Option Ev :=
   | _, _ => none
 
 def mkCfg (kv : List (String × String)) : Cfg :=
-  { bs := Drv.getN kv "bs" 1, wait := Drv.getN kv "wait" 0,
+  let bs := Drv.getN kv "bs" 1
+  { bs := bs,
+    wait := if Drv.getS kv "wait" == "D" then defaultWait bs (Drv.getN kv "ups" 1) else Drv.getN kv "wait" 0,
     endm := (parseItem (Drv.getS kv "end" "N")).getD none,
     strict := Drv.getN kv "strict" 1 == 1 }
 
